@@ -162,11 +162,17 @@ func (rw *RWMutex) Unlock() {
 type Once struct {
 	done    bool
 	running bool
+	ep      uint32
 }
 
 func (o *Once) Do(f func()) {
 	if mc.Killing() {
 		return
+	}
+	if e := mc.Epoch(); o.ep != e {
+		// a package-level Once starts every execution undone, so that executions do not depend on
+		// which of them happened to run first in the process
+		o.ep, o.done, o.running = e, false, false
 	}
 	run := false
 	mc.Point(&mc.Op{Kind: "once.Do", Obj: o, Alts: func() int {
